@@ -23,6 +23,8 @@ import (
 	wire "github.com/jeroenrinzema/psql-wire"
 	"github.com/jeroenrinzema/psql-wire/codes"
 	pgerr "github.com/jeroenrinzema/psql-wire/errors"
+	"github.com/jeroenrinzema/psql-wire/pkg/buffer"
+	"github.com/jeroenrinzema/psql-wire/pkg/types"
 	"github.com/lib/pq/oid"
 
 	"verif/harness/mem"
@@ -141,6 +143,20 @@ func NewExec(cfg M) (*Exec, error) {
 	opts := []wire.OptionFn{wire.Logger(quietLogger()), wire.MessageBufferSize(x.Limit)}
 	if S(cfg, "auth") == "clear" {
 		opts = append(opts, wire.SessionAuthStrategy(wire.ClearTextPassword(x.validate)))
+	}
+	if a := S(cfg, "auth"); a == "custom-ok" || a == "custom-fail" {
+		// an authentication strategy of the user's own: it sees the client parameters and either announces
+		// AuthenticationOk itself or returns an error
+		opts = append(opts, wire.SessionAuthStrategy(func(ctx context.Context, w *buffer.Writer, r *buffer.Reader) (context.Context, error) {
+			cp := wire.ClientParameters(ctx)
+			x.cb(ctx, M{"name": "auth", "user": cp[wire.ParamUsername], "db": cp[wire.ParamDatabase]})
+			if a == "custom-fail" {
+				return ctx, errors.New("not on the list")
+			}
+			w.Start(types.ServerAuth)
+			w.AddInt32(0)
+			return ctx, w.End()
+		}))
 	}
 	if p := Sub(cfg, "params"); p != nil {
 		g := wire.Parameters{}
